@@ -157,56 +157,53 @@ impl SwiftField for Field61 {
         parse_swift_chars(&transaction_type, "Field 61 transaction type")?;
         pos += 4;
 
-        // Parse customer reference (up to 16 characters until // or end)
-        let remaining = &input[pos..];
+        // Supplementary details are on their own line: split it off first, so that a `//` or an
+        // over-long run inside it cannot be mistaken for a reference
+        let (first_line, second_line) = match input[pos..].split_once('\n') {
+            Some((l1, l2)) => (l1, Some(l2)),
+            None => (&input[pos..], None),
+        };
+
+        // Parse customer reference (up to 16 characters until // or end of the line)
         let (customer_ref_part, after_customer_ref) =
-            if let Some(double_slash_pos) = remaining.find("//") {
+            if let Some(double_slash_pos) = first_line.find("//") {
                 (
-                    remaining[..double_slash_pos].to_string(),
-                    Some(&remaining[double_slash_pos + 2..]),
+                    first_line[..double_slash_pos].to_string(),
+                    Some(&first_line[double_slash_pos + 2..]),
                 )
             } else {
-                (remaining.to_string(), None)
+                (first_line.to_string(), None)
             };
 
         // Customer reference is up to 16 characters
         let customer_reference;
-        let mut supplementary_details = None;
-
+        let mut supplementary_details = second_line.map(|s| s.to_string());
         if customer_ref_part.len() <= 16 {
             customer_reference = customer_ref_part;
-        } else {
+        } else if after_customer_ref.is_none() && second_line.is_none() {
+            // No `//` and no second line: text beyond 16 characters is taken as supplementary details
             customer_reference = customer_ref_part[..16].to_string();
-            // If customer ref part is > 16 chars and no //, rest is supplementary details
-            if after_customer_ref.is_none() && customer_ref_part.len() > 16 {
-                supplementary_details = Some(customer_ref_part[16..].to_string());
-            }
+            supplementary_details = Some(customer_ref_part[16..].to_string());
+        } else {
+            return Err(ParseError::InvalidFormat {
+                message: "Field 61 customer reference exceeds 16 characters".to_string(),
+            });
         }
 
-        // Parse bank reference and supplementary details (after //)
-        // Format after //: bank_reference[16x][\n]supplementary_details[34x]
-        // Supplementary details may be on a new line or directly concatenated
-        let bank_reference = if let Some(bank_ref_str) = after_customer_ref {
-            // Check if there's a newline separating bank ref from supplementary details
-            if let Some(newline_pos) = bank_ref_str.find('\n') {
-                // Bank reference is before newline, supplementary details after
-                let bank_ref = bank_ref_str[..newline_pos].to_string();
-                if newline_pos + 1 < bank_ref_str.len() {
-                    supplementary_details = Some(bank_ref_str[newline_pos + 1..].to_string());
+        // Parse bank reference (after //)
+        let bank_reference = match after_customer_ref {
+            Some(bank_ref_str) if bank_ref_str.len() > 16 => {
+                if second_line.is_some() {
+                    return Err(ParseError::InvalidFormat {
+                        message: "Field 61 bank reference exceeds 16 characters".to_string(),
+                    });
                 }
-                Some(bank_ref)
-            } else if bank_ref_str.len() > 16 {
-                // No newline, but string is longer than bank ref max
-                // First 16 chars = bank reference, rest = supplementary details
+                // No second line: text beyond 16 characters is taken as supplementary details
                 supplementary_details = Some(bank_ref_str[16..].to_string());
                 Some(bank_ref_str[..16].to_string())
-            } else if !bank_ref_str.is_empty() {
-                Some(bank_ref_str.to_string())
-            } else {
-                None
             }
-        } else {
-            None
+            Some(bank_ref_str) if !bank_ref_str.is_empty() => Some(bank_ref_str.to_string()),
+            _ => None,
         };
 
         // Validate customer reference length
@@ -267,14 +264,11 @@ impl SwiftField for Field61 {
         if let Some(ref bank_reference) = self.bank_reference {
             result.push_str("//");
             result.push_str(bank_reference);
+        }
 
-            // Supplementary details come on new line after bank reference if present
-            if let Some(ref supplementary_details) = self.supplementary_details {
-                result.push('\n');
-                result.push_str(supplementary_details);
-            }
-        } else if let Some(ref supplementary_details) = self.supplementary_details {
-            // If no bank reference but supplementary details exist, append after customer ref
+        // Supplementary details always go on their own line ([34x] is the second line of the field)
+        if let Some(ref supplementary_details) = self.supplementary_details {
+            result.push('\n');
             result.push_str(supplementary_details);
         }
 
